@@ -13,8 +13,9 @@ SIZES = {
     #  generated scenarios)
     "quick": dict(n_synth=320, steps=320, n_micro=40, shipped_steps=300,
                   n_gen=10, bfs_cap=1500, n_large=2, n_ring=24),
-    "thorough": dict(n_synth=6000, steps=700, n_micro=900,
-                     shipped_steps=2000, n_gen=120, bfs_cap=8000, n_large=16, n_ring=600),
+    "thorough": dict(n_synth=12000, steps=700, n_micro=1800,
+                     shipped_steps=2000, n_gen=240, bfs_cap=8000, n_large=24,
+                     n_ring=1200),
 }
 BFS_SHIPPED = {"quick": ["tiny", "tiny-hard"],
                "thorough": ["tiny", "tiny-hard", "tiny-small", "small",
